@@ -22,7 +22,12 @@ CorruptOK(ret) == ret # "ok"
 \* the relocation audit of a real arena (driver op `audit`): Arena!RegisteredPointersValid and the AllRegistered discipline
 \* seen from the implementation - no word of any buffer holds an address of the arena unless its slot is in the
 \* relocation list, and every listed slot lies inside its buffer and holds NULL or an address of the arena
-AuditOK(c) == c.unregistered = 0 /\ c.dangling = 0 /\ c.outside = 0
+\* ... and every transition of the automaton leads to a slot inside both of its tables (only the used part of a buffer is saved)
+AuditOK(c) == /\ c.unregistered = 0 /\ c.dangling = 0 /\ c.outside = 0
+              /\ ("ac_bad" \in DOMAIN c => c.ac_bad = 0)
+\* hook H8: when the tables of the automaton are complete, the arena holds at least as many entries of each as their logical
+\* size (what lies beyond the used part of a buffer is neither saved nor protected)
+ACTablesOK(c) == c.t >= c.size /\ c.m >= c.size
 
 \* a save through a stream that accepts `limit` bytes (ArenaSave.tla: ResultHonest and OriginalIntact seen from outside)
 ERROR_WRITING_FILE == 58
